@@ -274,8 +274,13 @@ def _adversarial_case(rng, tier, i):
 
 # small, readable anchors placed first (they provide the evidence samples)
 _ANCHORS = [
+    {"gen": "explicit", "name": "line4_k_all", "points": [[0.0], [1.0], [2.0], [3.0]], "leaf": 1, "strategy": "random",
+     "npseed": 0, "queries": [{"q": [0.5], "k": 4, "r": 1.5}, {"q": [0.5], "k": 3, "r": 0.5}]},
     {"gen": "explicit", "name": "line10_k_all", "points": [[float(i)] for i in range(10)], "leaf": 1, "strategy": "random",
      "npseed": 1, "queries": [{"q": [7.5], "k": 10, "r": 2.5}, {"q": [7.5], "k": 9, "r": 0.5}, {"q": [1.5], "k": 15, "r": 0.0}]},
+    {"gen": "explicit", "name": "eight_points_2d_balanced",
+     "points": [[3.0, 3.0], [1.0, 4.0], [0.0, 2.0], [3.0, 4.0], [2.0, 1.0], [1.0, 2.0], [2.0, 3.0], [4.0, 0.0]], "leaf": 1,
+     "strategy": "balanced", "npseed": 0, "queries": [{"q": [2.0, 3.0], "k": 5, "r": 1.5}, {"q": [2.0, 3.0], "k": 8, "r": 0.0}]},
     {"gen": "explicit", "name": "pairs_on_a_line", "points": [[0.0], [0.0], [1.0], [1.0], [2.0], [2.0], [3.0], [3.0]], "leaf": 2,
      "strategy": "balanced", "npseed": 0, "queries": [{"q": [1.0], "k": 4, "r": 1.0}, {"q": [3.0], "k": 8, "r": 0.0}]},
     {"gen": "explicit", "name": "three_identical_leaf2", "points": [[0.5, 0.25]] * 3, "leaf": 2, "strategy": "balanced",
@@ -302,8 +307,8 @@ def cases(seed, tier):
         c = dict(a)
         c["seed"] = 1
         out.append(c)
-    n_general = 520 if tier == "quick" else 15000
-    n_adv = 140 if tier == "quick" else 3000
+    n_general = 520 if tier == "quick" else 36000
+    n_adv = 140 if tier == "quick" else 6000
     gen = [_general_case(rng, tier, i) for i in range(n_general)]
     adv = [_adversarial_case(rng, tier, i) for i in range(n_adv)]
     # interleave so that every shard gets both families
